@@ -189,6 +189,21 @@ void judge(const sim::Json& sc, const RunRecord& rec, sim::RunResult& r) {
     if (viol.empty()) { viol = v; key = k; detail = d; }
   };
   std::vector<int> must_stop;  // deliveries (indices) that have ended and must be visible to Stop()
+  std::vector<size_t> raise_frames;   // per raise() in progress: number of handler invocations running when it was issued
+  auto end_delivery = [&]() {
+    Delivery& d = dels[stack.back()];
+    d.ended = true;
+    // exactly one callback when one registration was complete and none in progress (and alive)
+    if (d.began_alive && !d.reg_in_progress_at_begin && !d.any_inprogress_during && d.current_at_begin >= 0 && !dtor_begun && d.callbacks != 1)
+      flag("MISSING_CALLBACK", d.at, "delivery of signal " + std::to_string(d.signo) + " at " + d.at + " made " + std::to_string(d.callbacks) + " callbacks with registration " + std::to_string(d.current_at_begin) + " complete");
+    if (d.began_alive) must_stop.push_back(stack.back());
+    bool began_alive = d.began_alive; std::string at = d.at;
+    stack.pop_back();
+    // Three interrupts have arrived and every handler has returned to the mainline: the process
+    // should have been terminated.  (Which of the nested deliveries calls _exit is not prescribed.)
+    if (stack.empty() && began_alive && counted >= 3 && !dtor_begun)
+      flag("THIRD_NOT_TERMINATING", at, "control returned to the mainline after " + std::to_string(counted) + " interrupts (last delivered at " + at + ") instead of terminating the process");
+  };
 
   for (size_t ei = 0; ei < rec.history.size(); ++ei) {
     const std::string& e = rec.history[ei];
@@ -203,6 +218,7 @@ void judge(const sim::Json& sc, const RunRecord& rec, sim::RunResult& r) {
       pending_at = p == std::string::npos ? "?" : e.substr(p + 4);
       size_t h = pending_at.find('#');
       if (h != std::string::npos) pending_at.resize(h);
+      raise_frames.push_back(stack.size());
     }
     else if (starts(e, "Y sigh.handle.enter")) {
       Delivery d;
@@ -217,19 +233,14 @@ void judge(const sim::Json& sc, const RunRecord& rec, sim::RunResult& r) {
       stack.push_back((int)dels.size() - 1);
     }
     else if (starts(e, "Y sigh.handle.exit")) {
-      if (!stack.empty()) {
-        Delivery& d = dels[stack.back()];
-        d.ended = true;
-        // exactly one callback when one registration was complete and none in progress (and alive)
-        if (d.began_alive && !d.reg_in_progress_at_begin && !d.any_inprogress_during && d.current_at_begin >= 0 && !dtor_begun && d.callbacks != 1)
-          flag("MISSING_CALLBACK", d.at, "delivery of signal " + std::to_string(d.signo) + " at " + d.at + " made " + std::to_string(d.callbacks) + " callbacks with registration " + std::to_string(d.current_at_begin) + " complete");
-        if (d.began_alive) must_stop.push_back(stack.back());
-        stack.pop_back();
-        // Three interrupts have arrived and every handler has returned to the mainline: the process
-        // should have been terminated.  (Which of the nested deliveries calls _exit is not prescribed.)
-        if (stack.empty() && d.began_alive && counted >= 3 && !dtor_begun)
-          flag("THIRD_NOT_TERMINATING", d.at, "control returned to the mainline after " + std::to_string(counted) + " interrupts (last delivered at " + d.at + ") instead of terminating the process");
-      }
+      if (!stack.empty()) end_delivery();
+    }
+    else if (starts(e, "SIGRET ")) {
+      // raise() returned to the simulator: every handler invocation that began after this raise has returned, whether or
+      // not it passed the exit hook (an early return inside the handler skips it)
+      size_t depth = raise_frames.empty() ? 0 : raise_frames.back();
+      if (!raise_frames.empty()) raise_frames.pop_back();
+      while (stack.size() > depth) end_delivery();
     }
     else if (starts(e, "SETHANDLER_BEGIN ")) {
       int k = atoi(e.c_str() + 17);
